@@ -31,7 +31,7 @@ def shards(tier, seed):
     nmax = 12 if tier == "quick" else 40
     out = []
     for mk in ("affine", "bn_dropout", "paramfree"):
-        for ok in ("tensor", "tuple2", "list3", "named2", "view2"):
+        for ok in ("tensor", "tuple2", "list3", "named2", "view2", "gradtrack"):
             for lo in range(1, nmax + 1, 10):
                 out.append(dict(name="%s/%s/n%d-%d" % (mk, ok, lo, min(lo + 9, nmax)), model=mk, out=ok,
                                 ns=list(range(lo, min(lo + 9, nmax) + 1)), weight=lo * lo))
@@ -98,6 +98,13 @@ class Probe(torch.nn.Module):
             return y
         if self.out == "tuple2":
             return y, (y * 2).unsqueeze(-1)
+        if self.out == "gradtrack":
+            # a model that re-enables autograd locally (prediction plus a gradient-times-input track): legal under no_grad
+            with torch.enable_grad():
+                xg = X.double().detach().requires_grad_(True)
+                yg = self.lin(xg.reshape(xg.shape[0], -1)) if self.kind != "paramfree" else xg.reshape(xg.shape[0], -1) @ self.W.T
+                (gx,) = torch.autograd.grad(yg[:, 0].sum(), xg)
+            return y, (gx * X.double()).sum(dim=1).detach()
         if self.out == "view2":
             return y, X[:, :, 1:]                    # a view of the input the model was handed (cropped pass-through head)
         if self.out == "named2":
@@ -268,6 +275,25 @@ def run_shard(sh, tier, seed):
                 rec.case(1, 1)
                 if st != "ok" or [len(c["ids"]) for c in m.log] != [32] * (n // 32) + ([n % 32] if n % 32 else []):
                     rec.violation("predict:default_batch_size_not_32", dict(fn="predict", n=n), observed=[len(c["ids"]) for c in m.log] if st == "ok" else y)
+    if sh["ns"][0] == 1 and sh["out"] == "tensor":
+        # degenerate but legal shapes: sequences of length 0 and 1 through a pooling model with a per-example argument
+        from tangermeme.predict import predict
+
+        class Pool(torch.nn.Module):
+            def forward(self, X, a):
+                return X.double().sum(dim=(1, 2))[:, None] + a.double()
+        for L0 in (0, 1):
+            for n in (1, 3, 5):
+                X0 = torch.zeros(n, 4, L0, dtype=torch.float32)
+                if L0:
+                    X0[torch.arange(n), torch.arange(n) % 4, 0] = 1
+                a0 = torch.arange(n, dtype=torch.float64)[:, None] * 10 + 3
+                for b in (1, 2, 7):
+                    st, y = call(predict, Pool(), X0, args=(a0,), batch_size=b, device="cpu")
+                    rec.case(1, 1)
+                    exp = X0.double().sum(dim=(1, 2))[:, None] + a0
+                    if st != "ok" or tuple(y.shape) != (n, 1) or not torch.equal(y.double(), exp):
+                        rec.violation("predict:degenerate_length", dict(fn="predict", n=n, batch_size=b, length=L0, model="pooling"), expected=exp, observed=y)
     rec.sample(dict(model=sh["model"], out=sh["out"], n=sh["ns"], batch_size="1..n+3", n_args="0..3"))
     return rec.result()
 
